@@ -1,4 +1,5 @@
 """Properties that involve CPython: C01 (encoder meaning), C02 (CPython pickles), C06 (programs), C09 (dict opcodes)."""
+import os
 import re
 
 from . import common as C
@@ -373,6 +374,113 @@ def pickler_tie(ctx, objs, shared=False):
                         want[:1200], got[:1200])
 
 
+def py2_str_tie(ctx):
+    """Theorem C02_py2_str: the model of what Python 2's picklers write for a str object (py2StrPickle) against the real
+    pickle / cPickle of Python 2.7 where it can be run, byte for byte; and the theorem's claim on the implementation: Decode of those
+    bytes returns the byte string (ByteString with StrictUnicode, string without) and consumes them all."""
+    import subprocess
+    rng = ctx.rng
+    pay = [b"", b"a", b"abc", b"'", b'"', b"\\", b"\n", b"a\nb", b"\x00", b"\xff", b"\xc3\xa9", b"it's", b'say "hi"', b"'\"", b"\t\r\n", b"\x7f\x80",
+           b"x" * 255, b"y" * 256, b"z" * 300, b"q" * 70000, bytes(range(256))]
+    pay += [V.rand_bytes(rng, maxchunks=5) for _ in range(ctx.scale(60, 1500))]
+    prog = ("import sys, pickle, cPickle\n"
+            "for l in sys.stdin:\n"
+            "    s = l.strip().decode('hex')\n"
+            "    sys.stdout.write(' '.join(m.dumps(s, p).encode('hex') for m in (pickle, cPickle) for p in (0, 1, 2)) + '\\n')\n")
+    real = None
+    try:
+        r = subprocess.run(["python2", "-c", prog], input="".join(x.hex() + "\n" for x in pay).encode(), capture_output=True,
+                           env=dict(os.environ, PYENV_VERSION="2.7.18"), timeout=600)
+        out = r.stdout.decode().split("\n")[:-1]
+        if r.returncode == 0 and len(out) == len(pay):
+            real = [[bytes.fromhex(h) for h in l.split(" ")] for l in out]
+    except (OSError, subprocess.TimeoutExpired):
+        pass
+    ctx.count("py2-str:" + ("python2-available" if real is not None else "python2-absent"))
+    lines = [f"py2str {pr} {put} {hexs(x)}" for x in pay for put in ("0", "1", "-") for pr in (0, 1, 2)]
+    ans = dict(zip(lines, C.run_sharded(C.run_lean, lines)))
+    dec_lines, dec_meta = [], []
+    for i, x in enumerate(pay):
+        for pr in (0, 1, 2):
+            model = {put: ans[f"py2str {pr} {put} {hexs(x)}"] for put in ("0", "1", "-")}
+            if real is not None:
+                for which, data, puts in (("pickle.py", real[i][pr], ("0",)), ("cPickle", real[i][3 + pr], ("1", "-"))):
+                    ctx.evaluations += 1
+                    ctx.traces += 1
+                    if any(model[q] == "OK " + data.hex() for q in puts):
+                        ctx.exact_agree += 1
+                        ctx.count(f"py2-str:same-bytes:{which}:proto{pr}")
+                    else:
+                        ctx.disagree(f"py2str {pr} {puts[0]} {hexs(x)[:2000]}", f"python2 {which}: " + data.hex()[:2000], model[puts[0]][:2000],
+                                     "model of Python 2's pickling of a str")
+            for put in ("0", "1", "-"):
+                if model[put].startswith("OK "):
+                    cfg = rng.choice(CFGS)
+                    dec_lines.append(f"dec {cfg} - {model[put][3:]}")
+                    dec_meta.append((x, cfg, len(model[put][3:]) // 2))
+    # theorem C02_py2_bytearray: bytearray(text, 'latin-1') at protocols 1 and 2, with pickle.py's five PUTs and cPickle's two
+    bas = [x for x in pay if len(x) <= 70000]
+    realb = None
+    if real is not None:
+        progb = ("import sys, pickle, cPickle\n"
+                 "for l in sys.stdin:\n"
+                 "    s = bytearray(l.strip().decode('hex'))\n"
+                 "    sys.stdout.write(' '.join(m.dumps(s, p).encode('hex') for m in (pickle, cPickle) for p in (1, 2)) + '\\n')\n")
+        try:
+            r = subprocess.run(["python2", "-c", progb], input="".join(x.hex() + "\n" for x in bas).encode(), capture_output=True,
+                               env=dict(os.environ, PYENV_VERSION="2.7.18"), timeout=600)
+            out = r.stdout.decode().split("\n")[:-1]
+            if r.returncode == 0 and len(out) == len(bas):
+                realb = [[bytes.fromhex(h) for h in l.split(" ")] for l in out]
+        except (OSError, subprocess.TimeoutExpired):
+            pass
+    PUTS = {"pickle.py": "0 1 2 3 4", "cPickle": "1 - - - 2"}
+    blines = [f"py2ba {pr} {PUTS[w]} {hexs(x)}" for x in bas for w in PUTS for pr in (1, 2)]
+    bans = dict(zip(blines, C.run_sharded(C.run_lean, blines)))
+    ba_dec, ba_meta = [], []
+    for i, x in enumerate(bas):
+        for wi, w in enumerate(PUTS):
+            for pi, pr in enumerate((1, 2)):
+                a = bans[f"py2ba {pr} {PUTS[w]} {hexs(x)}"]
+                if realb is not None:
+                    ctx.evaluations += 1
+                    ctx.traces += 1
+                    if a == "OK " + realb[i][2 * wi + pi].hex():
+                        ctx.exact_agree += 1
+                        ctx.count(f"py2-bytearray:same-bytes:{w}:proto{pr}")
+                    else:
+                        ctx.disagree(f"py2ba {pr} {PUTS[w]} {hexs(x)[:2000]}", f"python2 {w}: " + realb[i][2 * wi + pi].hex()[:2000], a[:2000],
+                                     "model of Python 2's pickling of a bytearray")
+                if a.startswith("OK "):
+                    cfg = rng.choice(CFGS)
+                    ba_dec.append(f"dec {cfg} - {a[3:]}")
+                    ba_meta.append((x, len(a[3:]) // 2))
+    bgo, blean = run_both(ba_dec)
+    for line, (x, n), g, l in zip(ba_dec, ba_meta, bgo, blean):
+        ctx.evaluations += 1
+        ctx.tie(line[:4000], g, l)
+        ctx.count("py2-bytearray:theorem-instance")
+        want = f"OK A{hexs(x)} {n}"
+        if g != want and "TOOBIG" not in g:
+            ctx.violate("Decode of what Python 2 writes for a bytearray is not that content (C02_py2_bytearray)", line[:3000], want[:600], g[:600])
+    go, lean = run_both(dec_lines)
+    for line, (x, cfg, n), g, l in zip(dec_lines, dec_meta, go, lean):
+        ctx.evaluations += 1
+        ctx.tie(line[:4000], g, l)
+        ctx.count("py2-str:theorem-instance")
+        want = f"OK {'Y' if cfg[1] == '1' else 'S'}{hexs(x)} {n}"
+        if g != want and "TOOBIG" not in g:
+            ctx.violate("Decode of what Python 2 writes for a str object is not that byte string (C02_py2_str)", line[:3000], want[:600], g[:600])
+
+
+def _opnames_py(p):
+    import pickletools
+    try:
+        return [op.name for op, _, _ in pickletools.genops(p)]
+    except Exception:   # noqa
+        return []
+
+
 def _has_float(o):
     if isinstance(o, float):
         return True
@@ -388,8 +496,8 @@ def _has_float(o):
 
 class C02:
     prop = "C02"
-    lean_module = "Ogorek.Props.C06Dec"
-    theorems = ["Ogorek.C02_pickler", "Ogorek.C02_pickler_framed", "Ogorek.C02_pickler_bin", "Ogorek.C02_pickler_dec", "Ogorek.C02_pickler_shared_dec",
+    lean_module = "Ogorek.Props.C02Py2"
+    theorems = ["Ogorek.C02_py2_str", "Ogorek.C02_py2_bytearray", "Ogorek.parses_py2StrBody", "Ogorek.C19_STRING_py2repr", "Ogorek.C02_pickler", "Ogorek.C02_pickler_framed", "Ogorek.C02_pickler_bin", "Ogorek.C02_pickler_dec", "Ogorek.C02_pickler_shared_dec",
                 "Ogorek.pkOK_of_bf", "Ogorek.pyFloatTextOK_of_b", "Ogorek.C02_pickler_shared",
                 "Ogorek.C02_pickler_shared_unframed", "Ogorek.pk_val", "Ogorek.sk_val", "Ogorek.MemoInv.put", "Ogorek.runs_get",
                 "Ogorek.saveBytesS_ok", "Ogorek.saveBytearrayS_ok", "Ogorek.runs_listGroups",
@@ -436,6 +544,14 @@ class C02:
                   "a repeated such string is written again, strCopied) and mz (which objects are memoized at all: every one for the "
                   "picklers, only those fetched again for pickletools.optimize, which also renumbers - the model's running index does) - "
                   "and each of the three is compared byte for byte with the real one. "
+                  "C02_py2_str: for EVERY byte string, what Python 2's two picklers write for a str object at protocols 0-2 (STRING with "
+                  "repr / SHORT_BINSTRING / BINSTRING, PROTO at 2, the memo PUT with pickle.py's index 0, cPickle's index 1 or none; model "
+                  "py2StrPickle, compared byte for byte with Python 2.7's pickle and cPickle where python2 can be run) decodes, from any "
+                  "state, to that byte string - ByteString with StrictUnicode, string without. C02_py2_bytearray: likewise for bytearray objects as "
+                  "Python 2 (and Python 3 before 3.8) writes them at protocols 1 and 2 - bytearray(<text>, 'latin-1') through the "
+                  "__builtin__ global, the text as BINUNICODE, the encoding name as a Python-2 str, TUPLE2 or MARK..TUPLE, REDUCE, with any "
+                  "subset of the five memo PUTs (pickle.py writes all, cPickle two): Decode returns the []byte with that content "
+                  "(protocol 0 of this form is tied by correspondence only: Python 2's own raw-unicode-escape differs from CPython 3's). "
                   "Per-form lemmas as before: one memo key space for all PUT / GET widths and MEMOIZE (C02_memo_keys), every LONG1 "
                   "width and counted payload (C19_LONG1, C19_counted), the bytes()/bytearray() and _codecs.encode / "
                   "bytearray(bytes) forms CPython emits below protocol 3/5 (C02_bytes_forms). PARTIAL: objects in which a CONTAINER "
@@ -474,6 +590,9 @@ class C02:
         t100, t64 = tuple(range(1000, 1100)), tuple("s%d" % i for i in range(64))
         objs += [{"head": t100, "tail": ["x", "y"], "again": t100}, [t64, 1, 2, t64], [tuple(range(65)), [tuple(range(300))], {"k": tuple(range(64))}, "after"],
                  (tuple(range(1001)), "after", (tuple(range(63)), tuple(range(64)), 5)), [tuple([i]) * 70 for i in range(5)]]
+        # keys that are equal modulo 2^64 (or 2^63) and nothing else: a negative int next to the long 2^64 + n, 2^63 next to -2^63
+        objs += [{-1: "a", 2 ** 64 - 1: "b"}, {-5: 1, 2 ** 64 - 5: 2, -2 ** 63: 3, 2 ** 63: 4, 2 ** 64 - 2 ** 63: 5}, {0: "z", 2 ** 64: "w", -2 ** 64: "v"},
+                 {(-1, "k"): 1, (2 ** 64 - 1, "k"): 2}, {2 ** 63 - 1: 1, -2 ** 63 - 1: 2, 2 ** 65 - 1: 3}]
         late = ["s%d" % i for i in range(300)]
         objs.append(late + [late[299], late[0], late[256]])          # a GET with a two-byte memo index
         x = [1, 2]
@@ -529,6 +648,7 @@ class C02:
                             known="K1" if k1 else None)
         pickler_tie(ctx, tree_objects(rng, ctx.scale(150, 3000)))
         pickler_tie(ctx, shared_objects(rng, ctx.scale(150, 3000)), shared=True)
+        py2_str_tie(ctx)
         for i in range(0, len(lines), max(1, len(lines) // 8)):
             ctx.sample(lines[i][:200] + " -> " + go[i][:200])
 
@@ -718,6 +838,15 @@ class C06:
         ctx.count("python2-pickles:" + ("python2-absent" if p2 is None else "used"), 1 if p2 is None else len(p2))
         progs += [d for d in (p2 or []) if len(d) < 40000]
         progs += [P.py2_bytearray_pickle(b, pr, c) for b in (b"", b"a", b"h\xe9llo\xff", b"x" * 300) for pr in (0, 1, 2) for c in (False, True)]
+        # struct-typed keys whose payload is a tuple (the ZODB shape of a persistent id: (oid, class)), a call with arguments, nested
+        # references - assigned TWICE, by each of the three dict opcodes: the second assignment compares the key with itself
+        for key in (b"K\x01K\x02\x86Q", b"U\x03oidcm\nC\n\x86Q", b"K\x01\x85QQ", b"cm\nf\n(K\x01K\x02tR", b"K\x01K\x02\x86Q\x85", b"K\x07\x85\x85Q"):
+            progs += [b"}" + key + b"K\x05s" + key + b"K\x06s.", b"}(" + key + b"K\x05" + key + b"K\x06u.", b"(" + key + b"K\x05" + key + b"K\x06d.",
+                      b"}" + key + b"q\x00K\x05sh\x00K\x06s.", b"}(" + key + b"K\x05K\x09K\x08" + key + b"K\x06u."]
+        # a long that is memoized and used as a key directly and through the memo: one object, one key - in both modes
+        for big in (b"\x8a\x09\x00\x00\x00\x00\x00\x00\x00\x00\x01", b"L18446744073709551617L\n", b"\x8a\x01\x05", b"I36893488147419103232\n", b"L5L\n"):
+            progs += [b"}" + big + b"q\x00K\x01sh\x00K\x02s.", b"}(" + big + b"q\x00K\x01h\x00K\x02u.", b"(" + big + b"q\x00K\x01h\x00K\x02d.",
+                      b"}q\x05" + big + b"q\x00K\x01s0h\x05h\x00K\x02s.", b"]" + big + b"q\x00a}h\x00K\x01sh\x00K\x02s\x86."]
         nan = b"G\x7f\xf8\x00\x00\x00\x00\x00\x00"     # one NaN object used as a key twice (K6), and two NaN objects (no finding)
         progs += [b"}" + nan + b"q\x00K\x01sh\x00K\x02s.", b"(" + nan + b"q\x00K\x01h\x00K\x02d.", b"}" + nan + b"2K\x01sK\x02s.",
                   b"}" + nan + b"q\x00\x85K\x01sh\x00\x85K\x02s.", b"}" + nan + b"K\x01s" + nan + b"K\x02s."]
@@ -799,6 +928,19 @@ class C06:
                         ctx.count("map-mode:go-key-identity")
                         continue
                 known = "K1" if k1 else None
+                if known is None and any(x in p for x in (b"S", b"T", b"U")):
+                    # Python-2 strs among the dict keys: CPython 3 (the oracle keeps them as a type of their own) never merges such a key
+                    # with the unicode / bytes key of the same content; og-rek's documented rule does (C07: "a Python-2 byte string equals
+                    # both the str and the bytes of the same content"; without StrictUnicode it IS the text).  Judge by the reference
+                    # dictionary that applies that rule.
+                    o_r = C.run_py([f"{'loadr' if su else 'loadr0'} {hexs(p)}"])[0]
+                    if o_r.startswith("OK "):
+                        want_r = _to_py(V.parse(o_r[3:].rsplit(" ", 1)[0]))
+                        if not su:
+                            want_r = V.parse(y_to_s(V.render(want_r)))
+                        if equiv(want_r, got_t):
+                            ctx.count("py2-str dict key merged with the unicode / bytes key of the same content (documented rule, C07)")
+                            continue
                 if known is None and (b"nan" in p.lower() or b"\x7f\xf8" in p or b"\xff\xf8" in p or b"\x7f\xf0" in p):
                     # K6: equal to what Python builds when dict keys are compared by == alone (a NaN object reused as a key)?
                     o_n = C.run_py([f"{'loadrn' if su else 'loadr0n'} {hexs(p)}"])[0]
@@ -888,6 +1030,15 @@ class C09:
                     b"}(" + nk + b"K\x01tq\x00K\x01sh\x00K\x02s.", b"}" + nk + b"q\x00\x85K\x01sh\x00\x85K\x02s.",
                     b"}" + nk + b"2K\x01sK\x02s.", b"}(" + nk + b"q\x00K\x01h\x00K\x02K\x05K\x03u.",
                     b"}" + nk + b"K\x01s" + nk + b"K\x02s."]       # last: two distinct NaN objects - two entries everywhere
+        # a LONG object that is memoized and then used as a key directly AND through the memo (in a builtin map a *big.Int key is a
+        # pointer: one object is one key), by each dict opcode, in one dict and in a dict reached again through the memo
+        for big in (b"\x8a\x09\x00\x00\x00\x00\x00\x00\x00\x00\x01", b"L18446744073709551617L\n", b"\x8a\x01\x05", b"I36893488147419103232\n", b"L5L\n"):
+            out += [b"}" + big + b"q\x00K\x01sh\x00K\x02s.", b"}(" + big + b"q\x00K\x01h\x00K\x02u.", b"(" + big + b"q\x00K\x01h\x00K\x02d.",
+                    b"}q\x05" + big + b"q\x00K\x01s0h\x05h\x00K\x02s.", b"]" + big + b"q\x00a}h\x00K\x01sh\x00K\x02s\x86.",
+                    b"}" + big + b"2K\x01sK\x02s.", b"}(" + big + b"q\x00K\x01" + big + b"K\x02h\x00K\x03u."]
+        # struct-typed keys whose payload is a tuple, assigned twice (the second assignment compares the key with an equal one)
+        for key in (b"K\x01K\x02\x86Q", b"U\x03oidcm\nC\n\x86Q", b"K\x01\x85QQ", b"cm\nf\n(K\x01K\x02tR", b"K\x01K\x02\x86Q\x85"):
+            out += [b"}" + key + b"K\x05s" + key + b"K\x06s.", b"}(" + key + b"K\x05" + key + b"K\x06u.", b"(" + key + b"K\x05" + key + b"K\x06d."]
         # a key no Go map can hold right after an acceptable key of the same Go type, in one batch: an error, never a panic
         for bad in (b"]Q", b"(I1\nI2\ntQ", b"}Q", b"]QQ"):
             for good in (b"I1\nQ", b"Va\nQ"):
